@@ -381,9 +381,68 @@ func init() {
 				r.Violation("natural-order-after-delete", fmt.Sprintf("collection (%s): Find({}) returns %v, insertion order of the remaining documents is %v", b.name, all, want), map[string]interface{}{"collection_sequence": b.seq, "deleted_positions": b.del})
 			}
 		})
+		// dotted sort paths: embedded documents, and arrays whose elements have nothing at the rest of the path (no value
+		// there: the document ranks as null, like one without the field)
+		var dottedChecks int64
+		dpool := []bson.D{
+			bD("p", bD("q", int32(1))), bD("p", bD("q", int32(2)), "z", int32(1)), bD("p", bD("q", nil)), bD("p", bD()), bD("p", nil), bD(),
+			bD("p", bson.A{bD("c", int32(1))}), bD("p", bson.A{int32(7), int32(8)}), bD("p", bson.A{}), bD("p", bD("q", "s")), bD("p", bD("q", bson.A{int32(3), int32(0)})),
+			bD("p", bD("q", bD("r", int32(1)))),
+		}
+		dspecs := []bson.D{bD("p.q", int32(1)), bD("p.q", int32(-1)), bD("p.q", int32(1), "_id", int32(-1)), bD("p.q", int32(-1), "z", int32(1)), bD("p.q.r", int32(1)), bD("z", int32(-1), "p.q", int32(1))}
+		var dcolls [][]int
+		var dgen func(cur []int)
+		dgen = func(cur []int) {
+			if len(cur) >= 2 {
+				dcolls = append(dcolls, append([]int{}, cur...))
+			}
+			if len(cur) == 3 {
+				return
+			}
+			for k := range dpool {
+				dgen(append(cur, k))
+			}
+		}
+		dgen(nil)
+		par.For(len(dcolls), r.TooMany, func(ci int) {
+			w := world.New()
+			defer w.Close()
+			coll := w.C("d", "c")
+			var docs []bson.D
+			for pos, k := range dcolls[ci] {
+				d := append(bson.D{{Key: "_id", Value: int32(pos)}}, dpool[k]...)
+				docs = append(docs, d)
+				if _, err := coll.InsertOne(w.Ctx, d); err != nil {
+					r.Broken("insert: %v", err)
+					return
+				}
+			}
+			for _, spec := range dspecs {
+				full, err := refmodel.Order(docs, spec)
+				if err != nil {
+					r.Broken("reference order: %v", err)
+					return
+				}
+				cur, err := coll.Find(w.Ctx, bD(), options.Find().SetSort(spec))
+				var got []bson.D
+				if err == nil {
+					err = cur.All(w.Ctx, &got)
+				}
+				atomic.AddInt64(&dottedChecks, 1)
+				if err != nil || idsOf(got) != idsOf(full) {
+					r.Violation("order:dotted-path", fmt.Sprintf("Find({}).sort(%s) returned _ids [%s] (err %v), expected [%s]; collection %s", J(spec), idsOf(got), err, idsOf(full), J(docs)), map[string]interface{}{"collection": J(docs), "sort": J(spec)})
+				}
+				var one bson.D
+				err = coll.FindOne(w.Ctx, bD(), options.FindOne().SetSort(spec).SetSkip(1)).Decode(&one)
+				if err != nil || J(one) != J(full[1]) {
+					r.Violation("findone:dotted-path", fmt.Sprintf("FindOne({}).sort(%s).skip(1) returned %s (err %v), expected %s; collection %s", J(spec), J(one), err, J(full[1]), J(docs)), map[string]interface{}{"collection": J(docs), "sort": J(spec)})
+				}
+			}
+		})
+		r.Set("dotted_path_orders_checked", dottedChecks)
 		r.Set("larger_and_deleted_from_collections", int64(len(bigs)))
 		r.Set("larger_and_deleted_from_checks", bigChecks)
-		r.Set("evaluations", windows+oneDocWrites+distincts+bigChecks)
+		r.Set("evaluations", windows+oneDocWrites+distincts+bigChecks+dottedChecks)
 		r.Set("collections", int64(len(colls)))
 		r.Set("sort_specs", int64(len(specs)))
 		r.Set("filters", int64(len(filters)))
@@ -396,7 +455,7 @@ func init() {
 		r.Set("grammar_sizes", map[string]interface{}{"pool_documents": len(pool), "max_documents": maxDocs, "collections": len(colls), "filters": len(filters), "sort_specs": len(specs), "invalid_sort_specs": len(invalid)})
 		r.Set("exhaustive", !r.TooMany())
 		r.Set("samples", []interface{}{map[string]interface{}{"pool": J(pool)}, map[string]interface{}{"example_specs": []string{J(specs[0]), J(specs[len(specs)/2]), J(specs[len(specs)-1])}}})
-		r.Set("rule", "every sequence of <= max_documents documents of the pool (equal numbers of different types, arrays at both ends, empty arrays, null vs missing, strings) in every insertion order x 3 filters x every sort specification of 1-3 distinct keys over {a,b,_id} with both directions x every skip in 0..n+1 x every limit in 0..n+1 through Collection.Find: the returned documents must be exactly the window of the reference ordering (stable sort by per-direction array element, missing as null), unchanged; FindOne with skip, FindOneAndDelete and FindOneAndUpdate with sort act on the first element; Distinct on a, b, _id equals the ascending deduplicated reference list; invalid directions are rejected")
+		r.Set("rule", "every sequence of <= max_documents documents of the pool (equal numbers of different types, arrays at both ends, empty arrays, null vs missing, strings) in every insertion order x 3 filters x every sort specification of 1-3 distinct keys over {a,b,_id} with both directions x every skip in 0..n+1 x every limit in 0..n+1 through Collection.Find: the returned documents must be exactly the window of the reference ordering (stable sort by per-direction array element, missing as null), unchanged; FindOne with skip, FindOneAndDelete and FindOneAndUpdate with sort act on the first element; Distinct on a, b, _id equals the ascending deduplicated reference list; invalid directions are rejected; every sequence of 2-3 documents of a second pool (embedded documents, arrays whose elements have nothing at the rest of the path, empty arrays, null, missing) x 6 specifications over dotted paths: full order and FindOne with skip")
 		r.Assume("an empty array used as a sort key ranks as an array (lungo's documented choice; the property statement does not fix it)")
 		if windows < 100000 || ties < 1000 {
 			r.Broken("vacuity: windows=%d ties=%d", windows, ties)
